@@ -710,8 +710,10 @@ impl EliasFanoBuilder {
     /// Creates a builder for an [`EliasFano`] containing
     /// `n` numbers smaller than or equal to `u`.
     pub fn new(n: usize, u: usize) -> Self {
-        let l = if u >= n {
-            (u as f64 / n as f64).log2().floor() as usize
+        // Integer arithmetic: floating point would give an infinite value for
+        // n == 0 and the impossible width 64 for u close to usize::MAX
+        let l = if n > 0 && u >= n {
+            (u / n).ilog2() as usize
         } else {
             0
         };
@@ -871,8 +873,10 @@ impl EliasFanoConcurrentBuilder {
     /// Creates a concurrent builder for a sequence containing `n` nonnegative
     /// numbers smaller than or equal to `u`.
     pub fn new(n: usize, u: usize) -> Self {
-        let l = if u >= n {
-            (u as f64 / n as f64).log2().floor() as usize
+        // Integer arithmetic: floating point would give an infinite value for
+        // n == 0 and the impossible width 64 for u close to usize::MAX
+        let l = if n > 0 && u >= n {
+            (u / n).ilog2() as usize
         } else {
             0
         };
